@@ -106,8 +106,17 @@ fn scenario(agg: Agg, input: Vec<KV>, assign: Vec<usize>, p: u64, ts: bool, in_l
 fn scenario_on(agg: Agg, input: Vec<KV>, assign: Vec<usize>, layout: Layout, ts: bool, in_loop: bool, bound: usize) -> Scenario {
     let p = layout.total_cores();
     let lname = if layout.hosts() == 1 { format!("p{p}") } else { layout.name() };
-    let name = format!("C07/{:?}/in{:?}/on{:?}/{lname}/ts{ts}/loop{in_loop}", agg, input, assign).replace(' ', "");
-    let descr = format!("{:?} of (key, value) pairs {:?} placed on source replicas {:?} of {p} (layout {}), timestamped {ts}, inside a 2-round replay {in_loop}", agg, input, assign, layout.name());
+    let (name, descr) = if input.len() > 12 {
+        (
+            format!("C07/{:?}/many-keys-{}/{}", agg, input.len(), layout.name()),
+            format!("{:?} of {} (key, value) pairs {:?}.. spread over the {p} source replicas (layout {}), timestamped {ts}", agg, input.len(), &input[..6], layout.name()),
+        )
+    } else {
+        (
+            format!("C07/{:?}/in{:?}/on{:?}/{lname}/ts{ts}/loop{in_loop}", agg, input, assign).replace(' ', ""),
+            format!("{:?} of (key, value) pairs {:?} placed on source replicas {:?} of {p} (layout {}), timestamped {ts}, inside a 2-round replay {in_loop}", agg, input, assign, layout.name()),
+        )
+    };
     let (input2, assign2) = (input.clone(), assign.clone());
     let body: crate::rt::Body = Arc::new(move || {
       let (input2, assign2) = (input2.clone(), assign2.clone());
@@ -204,7 +213,13 @@ fn scenario_on(agg: Agg, input: Vec<KV>, assign: Vec<usize>, layout: Layout, ts:
                 let sig = if it >= 1 { format!("{sig}-from-iteration-2") } else { sig.to_string() };
                 return Err(Fail::new(
                     format!("c07-{:?}-{sig}", agg),
-                    format!("{d2}: iteration {it} produced {:?}, a sequential fold gives {:?}", rows, exp),
+                    if rows.len() + exp.len() > 60 {
+                        let missing: Vec<&Vec<i64>> = exp.iter().filter(|x| !rows.contains(x)).take(5).collect();
+                        let extra: Vec<&Vec<i64>> = rows.iter().filter(|x| !exp.contains(x)).take(5).collect();
+                        format!("{d2}: iteration {it} produced {} results, a sequential fold gives {}; first missing {:?}, first unexpected {:?}", rows.len(), exp.len(), missing, extra)
+                    } else {
+                        format!("{d2}: iteration {it} produced {:?}, a sequential fold gives {:?}", rows, exp)
+                    },
                 ));
             }
         }
@@ -231,6 +246,21 @@ fn scenario_on(agg: Agg, input: Vec<KV>, assign: Vec<usize>, layout: Layout, ts:
         loop_body: false,
         sometimes: vec![],
     }
+}
+
+/// Many keys (more than any internal chunk, table or batch size): `nkeys` keys with one value
+/// each, every third key with a second one, spread over the source replicas.
+fn scenario_many_keys(agg: Agg, nkeys: i64, layout: Layout) -> Scenario {
+    let mut input: Vec<KV> = vec![];
+    for k in 0..nkeys {
+        input.push((k, 1 + k % 7));
+        if k % 3 == 0 {
+            input.push((k, 100 + k % 5));
+        }
+    }
+    let cores = layout.total_cores() as usize;
+    let assign: Vec<usize> = (0..input.len()).map(|i| (i / 3) % cores).collect();
+    scenario_on(agg, input, assign, layout, false, false, 0)
 }
 
 fn build(tier: Tier) -> Vec<Scenario> {
@@ -286,6 +316,11 @@ fn build(tier: Tier) -> Vec<Scenario> {
             }
             out.push(scenario_on(agg, vec![(0, 1), (1, 4), (0, 2)], vec![0, 1, 0], layout.clone(), false, true, 0));
         }
+        // more keys than any internal chunk / table / batch size
+        out.push(scenario_many_keys(agg, 2500, Layout::Local(2)));
+        if tier == Tier::Thorough || matches!(agg, Agg::GroupByFold | Agg::GbFold) {
+            out.push(scenario_many_keys(agg, 2500, Layout::Remote(vec![1, 1])));
+        }
         // repeated iterations of the same aggregation
         for input in [vec![(0i64, 1i64), (1, 4), (0, 2)], vec![]] {
             out.push(scenario(agg, input.clone(), (0..input.len()).map(|i| i % 2).collect(), 2, false, true, 1));
@@ -298,7 +333,7 @@ pub fn spec() -> PropSpec {
     PropSpec {
         id: "C07",
         build,
-        rule: "14 aggregation forms (fold, reduce, fold_assoc, reduce_assoc, group_by+fold, group_by+reduce, group_by_fold, group_by_reduce, group_by_sum/count/avg/min_element/max_element, keyed rich_map counter) x all multisets of <= 2 (quick) / 3 (thorough) keyed values plus skewed, single-key and more-keys-than-replicas inputs x ALL assignments of the elements to 1-3 source replicas x timestamped or not, and inside a 2-round replay; a probe right after the aggregation sees, per iteration, exactly one result per occurring key (none for an empty input) equal to the sequential fold, stamped with the maximum input timestamp; schedules within the deviation bound; non-trivial = at least 2 input elements",
+        rule: "14 aggregation forms (fold, reduce, fold_assoc, reduce_assoc, group_by+fold, group_by+reduce, group_by_fold, group_by_reduce, group_by_sum/count/avg/min_element/max_element, keyed rich_map counter) x all multisets of <= 2 (quick) / 3 (thorough) keyed values plus skewed, single-key and more-keys-than-replicas inputs x ALL assignments of the elements to 1-3 source replicas x timestamped or not, and inside a 2-round replay, plus 2500 distinct keys on 2 replicas / 2 hosts; a probe right after the aggregation sees, per iteration, exactly one result per occurring key (none for an empty input) equal to the sequential fold, stamped with the maximum input timestamp; schedules within the deviation bound; non-trivial = at least 2 input elements",
         assumptions: &["deviation bound as reported (0 for the smallest inputs: schedule independence of these pipelines is C01's subject)"],
         exhaustive_when_uncapped: false,
         budget_s: (50, 1500),
